@@ -28,12 +28,12 @@ Proof. exact single_mod_refuted. Qed.
     literal 0.0), then after every history of stores with finite operands every slot of every angle is in
     [0, 360). *)
 Theorem c05_angle_range_invariant : forall sites, all_sites_safe sites = true ->
-  forall es st, Forall in_range st -> finite_inputs es -> Forall in_range (run sites es st).
+  forall es st, Forall in_range st -> finite_inputs es -> Forall in_range (AngleSites.run sites es st).
 Proof. exact angle_range_invariant. Qed.
 
 Theorem c05_single_site_refuted :
   exists es, finite_inputs es /\
-    exists x, In x (run [("_to_angle"%string, Single360)] es []) /\ B2R x = 360%R.
+    exists x, In x (AngleSites.run [("_to_angle"%string, Single360)] es []) /\ B2R x = 360%R.
 Proof. exact single_site_refuted. Qed.
 
 (** ------------------------------------------------------------------ (b) frozen values, copies *)
@@ -55,17 +55,31 @@ Proof. intros V table carve OK h. exact (non_receiver_stable V table carve OK h)
 
 Theorem c05_frozen_stable_refuted :
   table_ok bad_table no_carve = false /\
-  FrozenOps.run nat bad_table [({| meth := "__matmul__"; recv := 0; args := [0] |}, fun _ => 1, [])] [("FrozenMatrix"%string, 0)]
-    = [("FrozenMatrix"%string, 1)].
+  FrozenOps.run nat bad_table (({| meth := "__matmul__"; recv := 0%nat; args := (0%nat :: nil) |}, fun _ : nat => 1%nat, nil) :: nil)
+    (("FrozenMatrix"%string, 0%nat) :: nil) = (("FrozenMatrix"%string, 1%nat) :: nil).
 Proof. exact frozen_stable_refuted. Qed.
 
 (** ------------------------------------------------------------------ (c) text *)
 
-Theorem c05_format6_shape : forall c x, cfg_ok c = true -> shape_ok (fmt_parts c x) = true.
+(** Shape of the text for EVERY dyadic x and every pipeline read from the source that strips zeros at six
+    places: sign?, digits without leading zero, optionally '.' and 1-6 digits not ending in 0, never "-0" -
+    except on the carved-out inputs, which exist only while the '-0' repair is absent (known defect #3:
+    negative x with |x|*1e6 rounding to 0). *)
+Theorem c05_format6_shape : forall c x, cfg_base_ok c = true -> carved c x = false -> shape_ok (fmt_parts c x) = true.
+Proof. exact format6_shape_gen. Qed.
+
+(** with the repair nothing is carved out *)
+Theorem c05_format6_shape_fixed : forall c x, cfg_ok c = true -> shape_ok (fmt_parts c x) = true.
 Proof. exact format6_shape. Qed.
 
-Theorem c05_format6_plain : forall c x, cfg_ok c = true -> plain_decimal (format6 c x) = true.
-Proof. exact format6_plain. Qed.
+(** the rendered STRING is accepted by an independent recogniser of  -?[0-9]+(\.[0-9]{1,6})?  minus "-0" *)
+Theorem c05_render_plain : forall p, shape_ok p = true -> plain_decimal (render p) = true.
+Proof. exact render_plain. Qed.
+
+(** the carved-out class is exactly the "-0" output *)
+Theorem c05_carved_prints_negative_zero : forall c x, cfg_base_ok c = true -> carved c x = true ->
+  format6 c x = [45; 48]%N.
+Proof. exact carved_prints_negative_zero. Qed.
 
 Theorem c05_format6_value : forall c x, scaled_value (fmt_parts c x) = scaled6 x.
 Proof. exact format6_value. Qed.
